@@ -505,6 +505,61 @@ Theorem C17_scalar_template_refuted :
 Proof. exact scalar_template_refuted. Qed.
 Print Assumptions C17_scalar_template_refuted.
 
+(** * Every template route of DataSet.hpp through a view, for every typed container kind (Hydra data_traits: the routes of
+    Data/NDArr.v).  getData(value, count, offset): the value is resized to [count] and receives the (count, offset) request -
+    an empty count being ONE element - and never more elements than it holds; getData(value): the value is resized to the
+    window and receives it; setData(value) reaches DataView::dataExtent(const NDSize &), which always throws: refused. *)
+Theorem C17_view_tget3_spec : forall B a v r cnt off,
+  tget3_empty_count B = false -> view_check_wraps B = false -> view_ok a v ->
+  all_u64 cnt -> all_u64 off ->
+  (cnt = [] \/ List.length cnt = List.length (v_count v)) -> (off = [] \/ List.length off = List.length (v_count v)) ->
+  view_tget3 B v a r cnt off = spec_tget3 v a r cnt off.
+Proof. exact view_tget3_spec. Qed.
+Print Assumptions C17_view_tget3_spec.
+
+Theorem C17_view_tgetall_spec : forall B a v r,
+  view_check_wraps B = false -> view_ok a v ->
+  (forall ext, route_resize r (v_count v) = Ok ext -> route_shape r ext = [] \/ List.length (route_shape r ext) = List.length (v_count v)) ->
+  view_tgetall B v a r = spec_tgetall v a r.
+Proof. exact view_tgetall_spec. Qed.
+Print Assumptions C17_view_tgetall_spec.
+
+(** a value resized to non-empty dims holds at least prod dims elements, for every container kind *)
+Theorem C17_resize_holds : forall r dims ext, all_u64 dims -> dims <> [] -> route_resize r dims = Ok ext -> prod dims <= route_buf r ext.
+Proof. exact resize_holds. Qed.
+Print Assumptions C17_resize_holds.
+
+(** the unrepaired three-argument template: a value of rank 0 receives the whole window *)
+Theorem C17_tget3_refuted :
+  let w := mkView [2] [6] in
+  view_tget3 repo_dc7d826 w a20 RScalar [] [] = UB value_overrun_read /\
+  view_tget3 repo_dc7d826 w a20 RNDArray [] [0] = UB value_overrun_read /\
+  view_tget3 repaired_except_pinned w a20 RScalar [] [] = Ok ([], [VI 2]) /\
+  view_tget3 repaired_except_pinned w a20 RNDArray [] [3] = Ok ([], [VI 5]) /\
+  view_tget3 repo_dc7d826 w a20 RNDArray [] [3] = Err oob /\
+  view_tget3 repaired_except_pinned w a20 RVector [3] [1] = Ok ([3], [VI 3; VI 4; VI 5]) /\
+  view_tgetall repaired_except_pinned w a20 RVector = Ok ([6], [VI 2; VI 3; VI 4; VI 5; VI 6; VI 7]) /\
+  view_tgetall repaired_except_pinned w a20 RScalar = Err "nix::InvalidRank"%string /\
+  view_tsetall repaired_except_pinned w a20 RVector [6] (gen_from 0) = Err not_allowed.
+Proof. exact tget3_refuted. Qed.
+Print Assumptions C17_tget3_refuted.
+
+(** * Further routes of util/dataAccess *)
+Theorem C17_position_in_data_spec : forall extent pos, all_u64 pos ->
+  position_in_data extent pos = spec_pos_in_data extent pos.
+Proof. exact position_in_data_spec. Qed.
+Print Assumptions C17_position_in_data_spec.
+
+Theorem C17_position_to_index_pairs_one : forall d s e u rm,
+  position_to_index_pairs d [s] [e] [u] rm = bind (position_to_index_pair d s e u rm) (fun r => Ok [r]).
+Proof. exact position_to_index_pairs_one. Qed.
+Print Assumptions C17_position_to_index_pairs_one.
+
+Theorem C17_data_slice3_is_default : forall B dims shape start end_,
+  data_slice3 B dims shape start end_ = data_slice B dims shape start end_ [] RangeMatch_Exclusive.
+Proof. exact data_slice3_is_default. Qed.
+Print Assumptions C17_data_slice3_is_default.
+
 (** * The window test is the code regenerated from src/util/dataAccess.cpp on this run *)
 Theorem C17_window_test_is_generated : forall B extent pos cnt,
   SliceSwitches.extent_check_wraps B = false -> (List.length extent < 200)%nat ->
@@ -542,8 +597,8 @@ Theorem C17_pair_conversion_is_generated : forall d s e rm,
 Proof. exact NixV.Access.SlicePairBridge.slice_pair_is_generated. Qed.
 Print Assumptions C17_pair_conversion_is_generated.
 
-(** * The open obligation: the library under test has the repaired behaviour.  The C17 patches landed as 08a7783, 956fa36,
-    cf8bb07; the scalar templates of DataSet.hpp are not repaired yet (notes/proposed-fixes/C16-dataview-scalar-template.patch):
+(** * The open obligation: the library under test has the repaired behaviour.  Everything up to d3b5c46 has landed; the
+    three-argument read template of DataSet.hpp is not repaired yet (notes/proposed-fixes/C16-dataview-template-empty-count.patch):
     this fails until [current_behaviour] in Access/SliceSwitches.v is set back to [repaired_except_pinned]. *)
 Theorem current_is_repaired : current_behaviour = repaired_except_pinned.
 Proof. reflexivity. Qed.
